@@ -1373,9 +1373,9 @@ class Inliner(object):
                 if callee is None or callee is caller or \
                         callee.fq in stack or \
                         callee.name in vocabulary() or \
-                        callee.module is not caller.module or \
                         inliner.is_vector_helper(callee):
                     return node
+                foreign = callee.module is not caller.module
                 raw = callee.raw
                 if raw.decorator_list and any(
                         ast.unparse(d) not in ('staticmethod',)
@@ -1459,6 +1459,13 @@ class Inliner(object):
                     set([receiver])
                 if free & inliner.fn_stored:
                     return node
+                if foreign:
+                    # a helper of another module names the same expression
+                    # here only if it reads nothing of its own module
+                    import builtins
+                    if callee.cls is not None or any(
+                            not hasattr(builtins, name) for name in free):
+                        return node
                 from . import norm as N
                 new = N.subst(copy.deepcopy(expr), bound)
                 if any(isinstance(a, ast.Tuple) for a in bound.values()):
